@@ -45,8 +45,10 @@ def l1_batch(seed, count, nops, base=0, **kw):
     return out
 
 
-def reloc_batch(seed, count, nops, base=0, width=16384, kts=("bytes",)):
-    return [gen.gen_reloc(seed * 1000 + 800 + i, idbase=(base + i) * IDSTEP, nops=nops, width=width, name="reloc_%d" % i, kt=kts[i % len(kts)])
+def reloc_batch(seed, count, nops, base=0, width=16384, kts=("bytes",), **kw):
+    # every second history: seven colliding keys and a key file above 128 KiB (3-byte links)
+    return [gen.gen_reloc(seed * 1000 + 800 + i, idbase=(base + i) * IDSTEP, nops=nops, width=width, name="reloc_%d" % i, kt=kts[i % len(kts)],
+                          kballast=(3 if i % 2 else 1), nkeys=(7 if i % 2 else 5), **kw)
             for i in range(count)]
 
 
@@ -135,13 +137,13 @@ def wl_iter(tier, seed):
                  dict(per_tlc=1, tlc_jobs=3)),
                 ("l2", l2_batch(seed + 5, 4, nops=60, base=60, iter_every=2), dict(per_tlc=1, tlc_jobs=4)),
                 # states produced by record relocation (key pieces moved, chains relinked), traversed after every step
-                ("reloc", reloc_batch(seed + 3, 3, 100, base=90), dict(per_tlc=1, tlc_jobs=3))]
+                ("reloc", reloc_batch(seed + 3, 3, 100, base=90, iter_every=1), dict(per_tlc=1, tlc_jobs=3))]
     sizes = ITER_SIZES_Q * 4 + [("BucketsSize", 32), ("BucketsSize", 512), ("BucketsSize", 2048), ("BucketsSize", 4096), ("BucketsSize", 32768), ("Capacity", 57), ("Capacity", 7), ("Capacity", 1)] * 2
     return [("iter", iter_batch(seed, sizes, rounds=8), dict(per_tlc=4, tlc_jobs=8)),
             ("iterpairs", [gen.gen_iter_pairs(seed * 1000 + 350 + i, idbase=(70 + i) * IDSTEP, n=n, kt=gen.KTS[i % 2], name="iterpairs_%d_%d" % (n, i))
                            for i, n in enumerate((128, 128, 256, 256, 512, 1024, 4096, 65536, 1 << 20))], dict(per_tlc=1, tlc_jobs=8)),
             ("l2", l2_batch(seed + 5, 20, nops=150, base=200, iter_every=2), dict(per_tlc=2, tlc_jobs=8)),
-            ("reloc", reloc_batch(seed + 3, 16, 300, base=300), dict(per_tlc=2, tlc_jobs=8))]
+            ("reloc", reloc_batch(seed + 3, 16, 300, base=300, iter_every=1), dict(per_tlc=2, tlc_jobs=8))]
 
 
 def wl_reopen(tier, seed):
@@ -359,6 +361,9 @@ def wl_layout(tier, seed):
             ("inplace", inpl, dict(per_tlc=1, tlc_jobs=8, op_timeout=60)),
             ("sweep", sweeps, dict(per_tlc=1, tlc_jobs=8)),
             ("sweepbig", bigs, dict(per_tlc=1, tlc_jobs=8, xmx="4g", op_timeout=60)),
+            # the link of a chain predecessor widens from 2 to 3 bytes (successor above 128 KiB of the key file)
+            ("linkwidth", [gen.gen_linkwidth(seed * 1000 + 40 + i, idbase=(950 + i) * IDSTEP, pklen=kl, name="linkwidth_%d" % kl)
+                           for i, kl in enumerate((10, 18, 26, 11) if tier == "quick" else (10, 18, 26, 42, 58, 11, 12, 19, 74))], dict(per_tlc=1, tlc_jobs=4, op_timeout=60)),
             # records that exactly fill their slot, in chains whose links change width (relocation, unlinking)
             ("reloc", reloc_batch(seed + 4, 4 if tier == "quick" else 24, 120 if tier == "quick" else 400, base=600), dict(per_tlc=1, tlc_jobs=4 if tier == "quick" else 8))] \
         + wl_core(tier, seed)[:1]
